@@ -158,6 +158,20 @@ func (g *Gen) casArg(c, k string) uint64 {
 	return cur + 12345
 }
 
+// withMetaCas picks the CAS a WithMeta write carries: usually far above everything (another cluster's clock), sometimes between the
+// collection's own high-water mark and the bucket's (i.e. below CAS values other collections have already been given).
+func (g *Gen) withMetaCas(c string) uint64 {
+	if g.viewBodies && g.r.chance(35) {
+		if coll := g.w.colls[c]; coll != nil {
+			if bucketCas, collCas, err := rosmar.VerifLastCas(coll); err == nil && bucketCas > collCas+2 {
+				return collCas + 1 + uint64(g.r.intn(int(bucketCas-collCas-1)))
+			}
+		}
+	}
+	g.metaCas += uint64(1 + g.r.intn(1000))
+	return g.metaCas
+}
+
 func (g *Gen) xattrVal() string {
 	switch g.r.intn(5) {
 	case 0:
@@ -428,8 +442,7 @@ func (g *Gen) oneOp(c, k string) (purged bool) {
 	case 16:
 		l.Op = "swm"
 		l.add("old", u(g.casArg(c, k)))
-		g.metaCas += uint64(1 + g.r.intn(1000))
-		l.add("new", u(g.metaCas))
+		l.add("new", u(g.withMetaCas(c)))
 		l.add("exp", u(pick(g.r, []uint64{0, 0, 1800000500, 4000000000})))
 		if g.r.chance(50) {
 			l.add("x", fmt.Sprintf(`{"_sync":%s}`, g.xattrVal()))
@@ -444,8 +457,7 @@ func (g *Gen) oneOp(c, k string) (purged bool) {
 	case 17:
 		l.Op = "dwm"
 		l.add("old", u(g.casArg(c, k)))
-		g.metaCas += uint64(1 + g.r.intn(1000))
-		l.add("new", u(g.metaCas))
+		l.add("new", u(g.withMetaCas(c)))
 		l.add("exp", "0")
 		if g.r.chance(50) {
 			l.add("x", fmt.Sprintf(`{"_sync":%s}`, g.xattrVal()))
@@ -1324,6 +1336,16 @@ func (g *Gen) program(n int) {
 		for _, cc := range g.colls {
 			for _, id := range feeds[cc] {
 				g.emit(Line{Op: "drain", Pos: []string{id}})
+			}
+		}
+		if g.profile == "feeds" && g.r.chance(4) {
+			// one feed's terminator is closed: the other feeds of its collection go on receiving every mutation
+			cc := pick(g.r, g.colls)
+			if len(feeds[cc]) > 0 {
+				j := g.r.intn(len(feeds[cc]))
+				g.emit(Line{Op: "stopfeed", Pos: []string{feeds[cc][j]}})
+				feeds[cc] = append(append([]string{}, feeds[cc][:j]...), feeds[cc][j+1:]...)
+				g.stats["op:stopfeed"]++
 			}
 		}
 		if g.profile == "multi" && g.r.chance(6) {
